@@ -60,9 +60,13 @@ def main(argv):
         return 2
     if not args.no_evidence:
         engine.write_evidence(evidence)
-    engine.summarize(evidence)
-    for line in lines:
-        print(line)
+    try:
+        engine.summarize(evidence)
+        for line in lines:
+            print(line)
+        sys.stdout.flush()
+    except BrokenPipeError:
+        pass
     return code
 
 
